@@ -16,7 +16,12 @@ import vlib
 import c02_gen as G
 
 
+SUFFIX = ""
+
+
 def seeds_path(name):
+    if SUFFIX:      # parallel generator instances write to scratch files that `--merge` folds into the corpus
+        return os.path.join(vlib.BUILD, "c02seeds", "seeds_%s%s.json.gz" % (name, SUFFIX))
     return os.path.join(vlib.VERIF, "corpus", "C02", "seeds_%s.json.gz" % name)
 
 
@@ -46,7 +51,28 @@ def main():
     ap.add_argument("--walks", type=int, default=24)
     ap.add_argument("--steps", type=int, default=150)
     ap.add_argument("--seed", type=int, default=1)
+    ap.add_argument("--suffix", default="")
+    ap.add_argument("--merge", action="store_true", help="fold the scratch databases of parallel instances into the corpus file")
     a = ap.parse_args()
+    global SUFFIX
+    if a.merge:
+        import glob
+        db = load(a.system)
+        for f in sorted(glob.glob(os.path.join(vlib.BUILD, "c02seeds", "seeds_%s_*.json.gz" % a.system))):
+            o = json.load(gzip.open(f, "rt"))
+            if o.get("tla_hash") != db.get("tla_hash"):
+                print("skip (other translation/constants):", f)
+                continue
+            for sd in o["seeds"]:
+                known = set(db["known"].setdefault(str(sd["cset"]), []))
+                fresh = [k for k in sd["keys"] if k not in known]
+                if fresh:
+                    db["seeds"].append(sd)
+                    db["known"][str(sd["cset"])] += fresh
+            print("merged", f, "->", len(db["seeds"]), "seeds")
+        save(a.system, db)
+        return
+    SUFFIX = a.suffix
     sysd = [s for s in G.SYSTEMS if s["name"] == a.system][0]
     log = []
     err = G.build_base([sysd["name"]], log)
